@@ -191,15 +191,4 @@ theorem p1_iff (d : Nat) (s : Str) :
             simp at h0; obtain ⟨rfl, _⟩ := h0
             exact hd (h1 c (by simp))
 
-theorem C20_recogniser (s : Str) : isPortRange s = true ↔ Spec s := by
-  unfold isPortRange Spec
-  rw [Bool.and_eq_true, p1_iff]
-  constructor
-  · rintro ⟨_, ds, r, p, rfl, h1, h2, h3, h4⟩
-    exact ⟨ds, r, p, rfl, ⟨by intro e; subst e; simp at h2, h1⟩, h3, h4⟩
-  · rintro ⟨ds, r, p, rfl, ⟨h1, h1'⟩, h3, h4⟩
-    refine ⟨?_, ds, r, p, rfl, h1', ?_, h3, h4⟩
-    · cases ds <;> simp_all
-    · cases ds <;> simp_all
-
 end Port
